@@ -2,6 +2,13 @@
 import os
 
 FINDINGS_FILE = "known_findings.txt"
+_V = os.path.dirname(os.path.dirname(os.path.abspath(__file__)))
+
+def replay_dir(prop):
+    """scratch directory for files an engine writes while replaying (never the working directory)"""
+    d = os.path.join(_V, "build", "run", prop + ".replay")
+    os.makedirs(d, exist_ok=True)
+    return d
 
 def rc_env(seed, cases, size):
     return {"RC_PARAMS": "seed=%d max_success=%d max_size=%d" % (seed, cases, size)}
@@ -23,7 +30,7 @@ def w_job(target, quick, thorough, name="W"):
             c += ["--exclude-" + k]
         return c, rc_env(seed, inst["cases"], inst["size"])
     def replay(exe, prop, path):
-        return [exe, "--prop", prop, "--replay", path, "--quiet"]
+        return [exe, "--prop", prop, "--replay", path, "--quiet", "--faildir", replay_dir(prop)]
     return dict(name=name, engine_tag="W", target=target, instances=instances, cmd=cmd, replay=replay,
                 timeout=dict(quick=900, thorough=5400))
 
@@ -41,7 +48,7 @@ def w_fuzz_job(profile, quick_runs, thorough_runs, workers_quick=4, workers_thor
     def replay(exe, prop, path):
         # replays are operation lists understood by the rapidcheck driver's --replay path
         import vbuild
-        return [vbuild.build("w_rc"), "--prop", prop, "--replay", path, "--quiet"]
+        return [vbuild.build("w_rc"), "--prop", prop, "--replay", path, "--quiet", "--faildir", replay_dir(prop)]
     return dict(name="W-libFuzzer", engine_tag="Wfuzz", target="w_fuzz", instances=instances, cmd=cmd, replay=replay,
                 timeout=dict(quick=900, thorough=5400))
 
@@ -53,7 +60,7 @@ def w_enum_job(which, quick, thorough):
     def cmd(exe, prop, tier, seed, inst, out, rundir, excluded):
         return [exe, "--prop", prop, "--enum", which, "--shard", "%d/%d" % (inst["shard"], inst["nshards"]), "--faildir", rundir, "--out", out] + inst["extra"], {}
     def replay(exe, prop, path):
-        return [exe, "--prop", prop, "--replay", path, "--quiet"]
+        return [exe, "--prop", prop, "--replay", path, "--quiet", "--faildir", replay_dir(prop)]
     return dict(name="W-enum-" + which, engine_tag="Wenum", target="w_rc", instances=instances, cmd=cmd, replay=replay, timeout=dict(quick=900, thorough=5400))
 
 def W(quick, thorough, gcc_thorough=None, fuzz=None, enum=None):
@@ -87,7 +94,7 @@ def t_job(target, mode, quick, thorough, name):
         c = [exe, "--prop", prop, "--mode", mode, "--threads", str(inst["threads"]), "--faildir", rundir, "--out", out] + inst["extra"]
         return c, rc_env(seed, inst["cases"], inst["size"])
     def replay(exe, prop, path):
-        return [exe, "--prop", prop, "--replay", path, "--quiet"]
+        return [exe, "--prop", prop, "--replay", path, "--quiet", "--faildir", replay_dir(prop)]
     return dict(name=name, engine_tag="T prop=C12 mode=" + ("A" if mode == "A" else "B"), target=target, instances=instances, cmd=cmd, replay=replay,
                 timeout=dict(quick=900, thorough=5400), replay_timeout=600)
 
@@ -100,7 +107,7 @@ def rc_job(target, tag, quick, thorough, name=None, extra=()):
     def cmd(exe, prop, tier, seed, inst, out, rundir, excluded):
         return [exe, "--prop", prop, "--faildir", rundir, "--out", out] + list(extra), rc_env(seed, inst["cases"], inst["size"])
     def replay(exe, prop, path):
-        return [exe, "--prop", prop, "--replay", path, "--quiet"]
+        return [exe, "--prop", prop, "--replay", path, "--quiet", "--faildir", replay_dir(prop)]
     return dict(name=name or tag, engine_tag=tag, target=target, instances=instances, cmd=cmd, replay=replay, timeout=dict(quick=900, thorough=5400))
 
 # ---------------------------------------------------------------- python engines (P, K): programs generated with Hypothesis, compilers as SUT
